@@ -71,11 +71,11 @@ impl<T: Copy + Default> VecDeque<T> {
 // HashMap / HashSet: association lists in FIXED arrays inside the struct.
 // (Heap-backed lists made CBMC lose constant propagation: every lookup on a
 // concrete table became symbolic and `push` re-allocations with symbolic sizes
-// exhausted 30 GB.)  MAP_CAP = 64 is CBMC's field-sensitivity limit for arrays;
+// exhausted 30 GB.)  MAP_CAP = 32 (CBMC keeps arrays up to 64 elements field-sensitive);
 // exceeding it is a *reported failure*.  Iteration order = insertion order, or
 // the reverse when built with `--features verif_rev_iter`, so that
 // order-sensitivity of the code under test is exercised both ways.
-pub const MAP_CAP: usize = 64;
+pub const MAP_CAP: usize = 32;
 
 pub struct HashMap<K, V> {
     keys: [K; MAP_CAP],
@@ -106,7 +106,7 @@ impl<K: Copy + Default + PartialEq, V: Copy + Default> HashMap<K, V> {
             }
             i += 1;
         }
-        assert!(self.len < MAP_CAP, "verif_shim: HashMap model capacity (64) exceeded");
+        assert!(self.len < MAP_CAP, "verif_shim: HashMap model capacity (32) exceeded");
         self.keys[self.len] = k;
         self.vals[self.len] = v;
         self.len += 1;
@@ -184,7 +184,7 @@ impl<K: Copy + Default + PartialEq> HashSet<K> {
         if self.contains(&k) {
             return false;
         }
-        assert!(self.len < MAP_CAP, "verif_shim: HashSet model capacity (64) exceeded");
+        assert!(self.len < MAP_CAP, "verif_shim: HashSet model capacity (32) exceeded");
         self.keys[self.len] = k;
         self.len += 1;
         true
